@@ -230,7 +230,9 @@ fn decode(t: &mut Tape) -> CbCase {
                         o.push(if bits & 0x8000 != 0 && k % 3 == 0 && *n != "document" { format!("~{}", n) } else { n.to_string() });
                     }
                 }
-                if o.is_empty() { "||x.com^".to_string() } else { format!("||x.com/p${}", o.join(",")) }
+                // ... on ASCII and non-ASCII patterns (non-ASCII must be refused on every conversion path)
+                let pat = t.choose(&["||x.com/p", "||x.com/p", "/bükerbanner.", "||rg.info/uploads/660х90_", "@@||x.com/Upload/bü", "/ad-日本/", "||x.com/é^"]);
+                if o.is_empty() { "||x.com^".to_string() } else { format!("{}${}", pat, o.join(",")) }
             }
             _ => t.choose(gen::JUNK).to_string(),
         };
@@ -246,7 +248,7 @@ fn decode(t: &mut Tape) -> CbCase {
 }
 
 pub fn check(ctx: &mut Ctx) {
-    ctx.rule = "debug-mode FilterSets of 1-12 lines (1 in 25: 40-540 lines) from the network and cosmetic generators plus pools biased to: non-ASCII / malformed / mixed if+unless domains in domain= and from= (incl. generated labels over characters whose case mapping changes UTF-8 length: U+212A, U+0130, U+1E9E, U+023A, U+2126, U+01C5, ligatures), '$' inside patterns and regexes, scheme-only patterns with negated types, hostname wildcards, every resource-type subset (bit pattern), match-case, entity / negated / regex / non-ASCII cosmetic locations, rules the exporter must refuse (redirect, csp, generichide, removeparam, badfilter, full regex). Validity predicates on the output: no panic; all strings ASCII; url-filter accepted by a recogniser of Safari's regex subset; never both if-domain and unless-domain; no non-ignore rule after an ignore-previous-rules rule; filters_used == the lines (network first, then cosmetic, in order) whose individual conversion succeeds, and the number of emitted rules equals the sum of their outputs (+1 first-party-document rule iff a network rule converted); inclusion: for patterns without * and ^, every generated URL the rule matches (5 request types x 2 sources) is matched by the emitted url-filter. Non-trivial = converted plain-pattern rule with a domain list, non-default types/party, or an anchor.".into();
+    ctx.rule = "debug-mode FilterSets of 1-12 lines (1 in 25: 40-540 lines) from the network and cosmetic generators plus pools biased to: non-ASCII / malformed / mixed if+unless domains in domain= and from= (incl. generated labels over characters whose case mapping changes UTF-8 length: U+212A, U+0130, U+1E9E, U+023A, U+2126, U+01C5, ligatures), '$' inside patterns and regexes, scheme-only patterns with negated types, hostname wildcards, every resource-type subset (bit pattern, on ASCII and non-ASCII patterns), match-case, entity / negated / regex / non-ASCII cosmetic locations, rules the exporter must refuse (redirect, csp, generichide, removeparam, badfilter, full regex). Validity predicates on the output: no panic; all strings ASCII; url-filter accepted by a recogniser of Safari's regex subset; never both if-domain and unless-domain; no non-ignore rule after an ignore-previous-rules rule; filters_used == the lines (network first, then cosmetic, in order) whose individual conversion succeeds, and the number of emitted rules equals the sum of their outputs (+1 first-party-document rule iff a network rule converted); inclusion: for patterns without * and ^, every generated URL the rule matches (5 request types x 2 sources) is matched by the emitted url-filter. Non-trivial = converted plain-pattern rule with a domain list, non-default types/party, or an anchor.".into();
     ctx.assumptions = vec![
         "set-level output is compared with the library's own per-rule conversion (CbRuleEquivalent::try_from); the predicates on each emitted rule are independent".into(),
         "inclusion URLs carry no userinfo and no port".into(),
